@@ -1,6 +1,7 @@
 package main
 
 import (
+	"fmt"
 	"go/types"
 	"strings"
 
@@ -94,14 +95,21 @@ func (ex *Exec) atObligations(fr *Frame, st *State, kind string, in ssa.Instruct
 	if c == nil {
 		c = ex.prog.contractFor(fr.fn)
 	}
-	if c == nil || len(c.At[kind]) == 0 || ex.discover != nil {
+	if c == nil || ex.discover != nil {
 		return
 	}
-	for _, cl := range c.At[kind] {
+	clauses := append([]*Clause(nil), c.At[kind]...)
+	// ordinal-specific clauses: at KIND#k
+	if ord := ex.prog.kindOrdinal(in, kind); ord >= 0 {
+		clauses = append(clauses, c.At[fmt.Sprintf("%s#%d", kind, ord)]...)
+	}
+	for _, cl := range clauses {
 		env := ex.specEnv(fr, st, in.Pos())
+		env.laxLocals = kind == "return"
 		for k, v := range vars {
 			env.vars[k] = v
 		}
+		ex.curClause = "at " + kind + " requires " + cl.Label
 		cond := ex.evalSpecBool(env, cl.Expr)
 		ex.obligeSpec(st, "at-"+kind, ex.siteWhat(in)+":"+cl.Label, cond, cl, in)
 	}
